@@ -1,6 +1,11 @@
 package main
 
 import (
+	"go/ast"
+	"go/token"
+	"go/types"
+
+	"golang.org/x/tools/go/types/typeutil"
 	"fmt"
 	"os"
 	"strings"
@@ -305,4 +310,150 @@ func termHasKind(t *Term, k TermKind) bool {
 		}
 	}
 	return false
+}
+
+// M-CV-PENDING (C11, C09): the view-change check counts a request for view w as a vote for every view up to w
+// ("NewViewNumber >= view"), so a stored request can complete the quorum of any view between the node's own and the one
+// it asks for. A handler that checks only the requested view leaves such a quorum pending: the node holds M requests and
+// stays where it is until some stored ChangeView is delivered once more (which then does change the view — a
+// re-delivery with an effect). After storing a request the handler therefore checks every view in (ViewNumber, w], i.e.
+// calls the check in a loop over the views, or the check takes no view and finds the highest one itself.
+func ruleCVPending(c *RC) *RuleResult {
+	r := &RuleResult{Rule: "M-CV-PENDING", Kind: "MUST", Doc: "the ChangeView handler checks, after storing a request for view w, every view between the node's own and w (the check counts requests for higher views as votes for lower ones)"}
+	h := c.handlers()["ChangeViewType"]
+	var checks []*FuncInfo
+	seen := map[*FuncInfo]bool{}
+	for _, s := range c.initCalls(true) {
+		if !seen[s.Fn] {
+			seen[s.Fn] = true
+			checks = append(checks, s.Fn)
+		}
+	}
+	if h == nil || len(checks) == 0 {
+		r.unresolved("ChangeView handler / view-change check")
+		return r
+	}
+	for _, cv := range checks {
+		if len(cv.Params) == 0 {
+			r.Sites++
+			r.ok(cv.Name + " takes no view: it decides itself which view has a quorum")
+			continue
+		}
+		// does it count higher requests for lower views? (a comparison >= / > between a request's view and the parameter)
+		monotone := false
+		ast.Inspect(cv.Decl.Body, func(n ast.Node) bool {
+			if b, ok := n.(*ast.BinaryExpr); ok && (b.Op == token.GEQ || b.Op == token.GTR || b.Op == token.LEQ || b.Op == token.LSS) {
+				for _, side := range []ast.Expr{b.X, b.Y} {
+					if id, ok := ast.Unparen(side).(*ast.Ident); ok && cv.Pkg.TypesInfo.Uses[id] == types.Object(cv.Params[0]) {
+						other := b.X
+						if side == b.X {
+							other = b.Y
+						}
+						if _, isCall := ast.Unparen(other).(*ast.CallExpr); isCall {
+							monotone = true // compared with something read from a payload
+						}
+					}
+				}
+			}
+			return true
+		})
+		if !monotone {
+			r.Sites++
+			r.ok(cv.Name + " counts only requests for exactly the view it is asked about")
+			continue
+		}
+		for g := range c.A.cluster(h) {
+			if g.Decl == nil || g.Decl.Body == nil {
+				continue
+			}
+			info := g.Pkg.TypesInfo
+			var stack []ast.Node
+			ast.Inspect(g.Decl.Body, func(n ast.Node) bool {
+				if n == nil {
+					stack = stack[:len(stack)-1]
+					return true
+				}
+				stack = append(stack, n)
+				call, ok := n.(*ast.CallExpr)
+				if !ok || len(call.Args) != 1 {
+					return true
+				}
+				f, _ := typeutil.Callee(info, call).(*types.Func)
+				if f == nil || c.Prog.Funcs[f.Origin()] != cv {
+					return true
+				}
+				r.Sites++
+				// the argument is the variable of an enclosing loop over the views
+				inLoop := false
+				if id, ok := ast.Unparen(call.Args[0]).(*ast.Ident); ok {
+					obj := info.Uses[id]
+					for _, anc := range stack {
+						switch l := anc.(type) {
+						case *ast.ForStmt:
+							if as, ok := l.Init.(*ast.AssignStmt); ok {
+								for _, lhs := range as.Lhs {
+									if lid, ok := lhs.(*ast.Ident); ok && info.Defs[lid] == obj && obj != nil {
+										inLoop = true
+									}
+								}
+							}
+						case *ast.RangeStmt:
+							for _, kv := range []ast.Expr{l.Key, l.Value} {
+								if lid, ok := kv.(*ast.Ident); ok && info.Defs[lid] == obj && obj != nil {
+									inLoop = true
+								}
+							}
+						}
+					}
+				}
+				// ... or a local that a loop of the same function walks down / up through the views before the call
+				// (the highest view with enough requests is searched first, then checked once)
+				searched := false
+				if id, ok := ast.Unparen(call.Args[0]).(*ast.Ident); ok && !inLoop {
+					if obj, isVar := info.Uses[id].(*types.Var); isVar && !obj.IsField() {
+						ast.Inspect(g.Decl.Body, func(m ast.Node) bool {
+							var body ast.Node
+							switch l := m.(type) {
+							case *ast.ForStmt:
+								body = l
+							case *ast.RangeStmt:
+								body = l.Body
+							}
+							if body == nil || body.End() > call.Pos() {
+								return true // (only loops that end before the call)
+							}
+							ast.Inspect(body, func(x ast.Node) bool {
+								switch st := x.(type) {
+								case *ast.IncDecStmt:
+									if lid, ok := ast.Unparen(st.X).(*ast.Ident); ok && info.Uses[lid] == types.Object(obj) {
+										searched = true
+									}
+								case *ast.AssignStmt:
+									for _, lhs := range st.Lhs {
+										if lid, ok := ast.Unparen(lhs).(*ast.Ident); ok && info.Uses[lid] == types.Object(obj) {
+											searched = true
+										}
+									}
+								}
+								return true
+							})
+							return true
+						})
+					}
+				}
+				if searched {
+					r.ok(g.Name + ": the view handed to " + cv.Name + " is searched by a loop over the views first")
+				} else if inLoop {
+					r.ok(g.Name + ": " + cv.Name + " is called for each view of a loop")
+				} else {
+					r.fail(g.Name+"/single-view-check", c.Prog.Pos(call), fmt.Sprintf("%s stores a ChangeView and calls %s(%s) for one view only, while %s counts a request for a higher view as a vote for every lower one: the request that completes the quorum of a lower view leaves it pending (the node holds M requests and stays in its view) until a stored ChangeView is delivered again", g.Name, cv.Name, types.ExprString(call.Args[0]), cv.Name))
+				}
+				return true
+			})
+		}
+	}
+	if r.Sites == 0 {
+		r.unresolved("calls of the view-change check in the ChangeView handler")
+	}
+	return r
 }
